@@ -102,6 +102,12 @@ def cases(tier: str, rng: random.Random) -> List[Case]:
                        ("VTuple", [G.I(1), G.S("x")])):
                 for m in ("sync", "async"):
                     out.append(std_case(v_, x_, m, tag="a:custom-coercer"))
+    # (a'0m) a map validator's coercer decides also about plain dicts (one that refuses everything, one that reads None as {})
+    for co_k in (0, 5, 4):
+        v_ = ("MapV", STRIP, INT, [("PMinKeys", 1)], [], Some(("CoUser", N(co_k))))
+        for x_ in (("VDict", [P(G.S(" k "), G.I(1))]), ("VDict", []), ("VDict", [P(G.S("k"), G.S("bad"))]), G.NONE, ("VList", [("VTuple", [G.S("k"), G.I(1)])]), G.I(3)):
+            for m in ("sync", "async"):
+                out.append(std_case(v_, x_, m, tag="a:custom-coercer"))
     # (a'+) a whole-tuple check behind payload-changing slots: it sees, and the result holds, the slots' payloads
     for fields, xs in (([STRIP, DEC], [G.S(" a "), G.S("1.5")]), ([DEC, STRIP], [G.I(2), G.S("b ")]),
                        ([("ListV", STRIP, [], [], None), INT_INC], [("VList", [G.S(" q ")]), G.I(1)]),
